@@ -104,7 +104,6 @@ def vet(src, checks, keep=None, baseline=True, tier='quick', runs=None, seed=Non
             ok = False
             print('  mutant stdout tail: ' + d1.stdout[-400:] + d1.stderr[-300:])
             print('  clean  stdout tail: ' + d0.stdout[-400:] + d0.stderr[-300:])
-        sh([PY, os.path.join(V, 'tools', 'setup.py')], env=dict(os.environ, VERIF_REPO=tree), cwd=V)
         rep['checks'] = {}
         for c in checks:
             res = run_check(c, tree, tier=tier, runs=runs, seed=seed)
